@@ -1,8 +1,161 @@
 import RisorModel.Util
-/-! Line-protocol front end of the C11 model (stub until the model exists). -/
+import RisorModel.C11.Model
+import RisorModel.Generated.C11
+/-!
+Line-protocol front end of the C11 model (requests after the leading `C11` field).
+
+  universe                                   → hex names regenerated from /repo (attribute-name universe)
+  facts                                      → regenerated control facts (init order, resolveModule shape)
+  reach  <edges> <roots> <targets>           → one 0/1 per target (Model.reach on the dumped REAL graph)
+  config <without> <host> <dflt> <mods> <back> <denies> <ovs> <accesses>
+                                             → final Impl state, per-deny / per-override Spec verdicts, access outcomes
+  shared <ids> <ids> <exempt>                → identities two configs have in common
+
+Lists: items joined by `,`, `-` = empty.  Names are `x` + lowercase hex of the bytes.
+table item `xname=id`; mods item `id:table` joined by `|`; edge `src>dst>label`;
+access item `i;xname;xattr;…` (identifier first) or `m;…` (import first).
+-/
 namespace Risor.C11
+open Risor.Util
+
+def items (s : String) (sep : String := ",") : List String :=
+  if s = "-" || s = "" then [] else s.splitOn sep
+
+def parseName (s : String) : Option Name :=
+  match s.toList with
+  | 'x' :: r => fromHexChars r
+  | _ => none
+
+def showName (s : Name) : String := "x" ++ toHex s
+
+def parseKV (s : String) : Option (Name × Id) :=
+  match s.splitOn "=" with
+  | [k, v] => do
+    let k ← parseName k
+    let v ← v.toNat?
+    pure (k, v)
+  | _ => none
+
+def parseTable (s : String) : Option Table := (items s).mapM parseKV
+
+def parseMods (s : String) : Option (List (Id × Table)) :=
+  (items s "|").mapM fun it =>
+    match it.splitOn ":" with
+    | [i, t] => do
+      let i ← i.toNat?
+      let t ← parseTable t
+      pure (i, t)
+    | _ => none
+
+def parseBack (s : String) : Option (List (Id × Id)) :=
+  (items s).mapM fun it =>
+    match it.splitOn "=" with
+    | [a, b] => do
+      let a ← a.toNat?
+      let b ← b.toNat?
+      pure (a, b)
+    | _ => none
+
+def parseIds (s : String) : Option (List Id) := (items s).mapM (·.toNat?)
+
+def parseEdges (s : String) : Option Graph :=
+  (items s).mapM fun it =>
+    match it.splitOn ">" with
+    | a :: b :: l => do
+      let a ← a.toNat?
+      let b ← b.toNat?
+      let _ := l
+      pure ⟨a, .attr [], b⟩
+    | _ => none
+
+def splitName (n : Name) : List Name := splitDots n
+
+def parseDenies (s : String) : Option (List (List Name)) :=
+  (items s).mapM fun it => (parseName it).map splitName
+
+def parseOvs (s : String) : Option (List (List Name × Id)) :=
+  (items s).mapM fun it =>
+    match it.splitOn "=" with
+    | [k, v] => do
+      let k ← parseName k
+      let v ← v.toNat?
+      pure (splitName k, v)
+    | _ => none
+
+def parseAccesses (s : String) : Option (List (Bool × Name × List Name)) :=
+  (items s).mapM fun it =>
+    match it.splitOn ";" with
+    | k :: f :: r => do
+      let f ← parseName f
+      let r ← r.mapM parseName
+      pure (k == "m", f, r)
+    | _ => none
+
+def showTable (t : Table) : String :=
+  if t.isEmpty then "-" else ",".intercalate (t.map fun kv => showName kv.1 ++ "=" ++ toString kv.2)
+
+def showMods (m : List (Id × Table)) : String :=
+  if m.isEmpty then "-" else
+    "|".intercalate (m.map fun it => toString it.1 ++ ":" ++ (if it.2.isEmpty then "" else showTable it.2))
+
+def showOpt : Option Id → String
+  | some x => toString x
+  | none => "n"
+
+def bit (b : Bool) : String := if b then "1" else "0"
+
+def joinOr (xs : List String) : String := if xs.isEmpty then "-" else ",".intercalate xs
+
+def handleConfig (without host dflt mods back denies ovs accs : String) : String :=
+  match parseTable host, parseTable dflt, parseMods mods, parseBack back,
+        parseDenies denies, parseOvs ovs, parseAccesses accs with
+  | some host, some dflt, some mods, some back, some denies, some ovs, some accs =>
+    let st0 : St := ⟨mergeDefaults (without == "1") host dflt, mods, back⟩
+    let impl := initCfg st0 denies ovs
+    let spec := initSpec st0 denies ovs
+    let gi := graphOf impl
+    let gs := graphOf spec
+    let ri := reach gi [root]
+    let rs := reach gs [root]
+    let dOut := denies.map fun p =>
+      let t := target st0 p
+      let r := match t with
+        | some t => bit (ri.contains t) ++ ":" ++ bit (rs.contains t)
+        | none => "0:0"
+      showOpt t ++ ":" ++ r ++ ":" ++ bit (deepName p)
+    let oOut := ovs.map fun pv =>
+      let t := target st0 pv.1
+      let r := match t with
+        | some t => bit (ri.contains t && t != pv.2)
+        | none => "0"
+      -- what a script obtains under exactly this name in the final Impl / Spec state
+      let seen (s : St) := match pv.1 with
+        | [] => none
+        | f :: a => access s false f a
+      showOpt t ++ ":" ++ r ++ ":" ++ showOpt (seen impl) ++ ":" ++ showOpt (seen spec) ++ ":" ++ bit (deepName pv.1)
+    let aOut := accs.map fun a => showOpt (access impl a.1 a.2.1 a.2.2)
+    "ok\t" ++ showTable impl.globals ++ "\t" ++ showMods impl.mods ++ "\t" ++ joinOr dOut ++ "\t" ++
+      joinOr oOut ++ "\t" ++ joinOr aOut ++ "\t" ++ bit (decide (impl = spec))
+  | _, _, _, _, _, _, _ => "error\tbad-config-request"
 
 def handle : List String → String
-  | _ => "error\tnot-implemented"
+  | ["universe"] => joinOr (Risor.Generated.C11.attrUniverse.map fun n => showName (strBytes n))
+  | ["facts"] =>
+    "init=" ++ ">".intercalate Risor.Generated.C11.initOrder ++
+    "\tresolveInRoot=" ++ bit Risor.Generated.C11.resolveLooksUpInRoot ++
+    "\tdottedKeys=" ++ toString Risor.Generated.C11.dottedMemberKeys.length
+  | ["reach", edges, roots, targets] =>
+    match parseEdges edges, parseIds roots, parseIds targets with
+    | some g, some r, some ts =>
+      let vis := reach g r
+      "ok\t" ++ (if ts.isEmpty then "-" else String.join (ts.map fun t => bit (vis.contains t)))
+    | _, _, _ => "error\tbad-reach-request"
+  | ["config", without, host, dflt, mods, back, denies, ovs, accs] =>
+    handleConfig without host dflt mods back denies ovs accs
+  | ["shared", a, b, ex] =>
+    match parseIds a, parseIds b, parseIds ex with
+    | some a, some b, some ex => "ok\t" ++ joinOr ((sharedIds a b ex).map toString)
+    | _, _, _ => "error\tbad-shared-request"
+  | _ => "error\tunknown-request"
 
 end Risor.C11
